@@ -234,7 +234,7 @@ def real_runs(ctx, t, vals3, replay, cgdir):
             g = ctx.tlc("FdShuffle_Gen", cfg=gen_cfg(vals3, 3, ALLPOS, [0] + ALLPOS, 0), timeout=900, count=False, heap="8g")
             ctx.tlc_ok("FdShuffle_Gen", g)
             big = ctx.read_ndjson(os.path.join(g.dir, "cases.ndjson"))
-            sample, nclasses = stratified(ctx, big, 1300)
+            sample, nclasses = stratified(ctx, big, 1000)
             direct = core + sample
             core_n = len(core)
             space = len(big)
